@@ -296,9 +296,8 @@ fn ingest_input(schema: &mut Schema, input: &mut FullType) {
     let input = super::StoredInputType {
         fields,
         name: input.name.take().expect("Input without a name"),
-        // The one-of input spec is not stable yet, thus the introspection query does not have
-        // `isOneOf`, so this is always false.
-        is_one_of: false,
+        // `isOneOf` is only present when the introspection query asked for it.
+        is_one_of: input.is_one_of.unwrap_or(false),
     };
 
     schema.stored_inputs.push(input);
